@@ -148,7 +148,8 @@ pub fn run(ctx: &mut Ctx) {
     }
     let big_n = if ctx.quick() { 9000 } else { 70000 };
     let inputs: Vec<Vec<u8>> = vec![vec![], vec![b'a'], plain::gen(&mut ctx.rng, "words", 60), plain::gen(&mut ctx.rng, "sparse3", 3000), plain::gen(&mut ctx.rng, "random", big_n)];
-    let depth = if ctx.quick() { 2 } else { 3 };
+    // depth 3 (110 592 sequences per input and level) only in the optimised build: the debug build repeats depth 2
+    let depth = if ctx.quick() || cfg!(debug_assertions) { 2 } else { 3 };
     let total = NACT.pow(depth as u32);
     for (ii, data) in inputs.iter().enumerate() {
         for (li, level) in [0u8, 1, 6].iter().enumerate() {
